@@ -53,6 +53,20 @@ func (n *zeroBaseNode) Post(ctx context.Context, s *flyt.SharedStore, p, e any) 
 	return flyt.Action(n.post), nil
 }
 
+// wiringNode calls wire(phase) from each of its callbacks.
+type wiringNode struct {
+	*flyt.BaseNode
+	post string
+	wire func(string)
+}
+
+func (n *wiringNode) Prep(ctx context.Context, s *flyt.SharedStore) (any, error) { n.wire("prep"); return nil, nil }
+func (n *wiringNode) Exec(ctx context.Context, p any) (any, error)               { n.wire("exec"); return nil, nil }
+func (n *wiringNode) Post(ctx context.Context, s *flyt.SharedStore, p, e any) (flyt.Action, error) {
+	n.wire("post")
+	return flyt.Action(n.post), nil
+}
+
 // oddExecNode's exec always fails with a fixed error.
 type oddExecNode struct {
 	*flyt.BaseNode
@@ -222,6 +236,63 @@ func runActCase(cs *ActCase) (fs []finding) {
 		act, err = flyt.Run(context.Background(), node, flyt.NewSharedStore())
 		if err == nil && act == "" {
 			add("empty-action:post-fails-with-odd-error:"+cs.Build, "post of a %s node returned (%q, %s error); the run came back as a SUCCESS with the empty action (n=%d c=%d)", cs.Shape, cs.Post, cs.Build, cs.N, cs.C)
+		}
+		return
+	case "wire-successor-while-running":
+		// the step has no outgoing connection when it starts; its own callback (cs.Build: prep / exec / post) connects its
+		// successor on the default action; it reports the empty (or the default) action: the connection exists when the
+		// action is routed, so it is followed
+		var hit int
+		probe := &probeNode{flyt.NewBaseNode(), &hit}
+		var f *flyt.Flow
+		var self flyt.Node
+		wire := func(ph string) {
+			if ph == cs.Build {
+				f.Connect(self, flyt.DefaultAction, probe)
+			}
+		}
+		switch cs.Shape {
+		case "func":
+			self = flyt.NewNode().
+				WithPrepFuncAny(func(ctx context.Context, s *flyt.SharedStore) (any, error) { wire("prep"); return nil, nil }).
+				WithExecFuncAny(func(ctx context.Context, p any) (any, error) { wire("exec"); return nil, nil }).
+				WithPostFuncAny(func(ctx context.Context, s *flyt.SharedStore, p, e any) (flyt.Action, error) { wire("post"); return flyt.Action(cs.Post), nil })
+		case "batch":
+			self = flyt.NewBatchNode().WithBatchConcurrency(cs.C).
+				WithPrepFunc(func(ctx context.Context, s *flyt.SharedStore) ([]flyt.Result, error) {
+					wire("prep")
+					items := make([]flyt.Result, cs.N)
+					for i := range items {
+						items[i] = flyt.NewResult(i)
+					}
+					return items, nil
+				}).
+				WithExecFuncAny(func(ctx context.Context, v any) (any, error) {
+					if v == any(0) {
+						wire("exec")
+					}
+					return v, nil
+				}).
+				WithPostFunc(func(ctx context.Context, s *flyt.SharedStore, items, results []flyt.Result) (flyt.Action, error) {
+					wire("post")
+					return flyt.Action(cs.Post), nil
+				})
+		default:
+			self = &wiringNode{BaseNode: flyt.NewBaseNode(), post: cs.Post, wire: wire}
+		}
+		head := flyt.NewNode()
+		if cs.Routed { // the step is not the start node
+			f = flyt.NewFlow(head)
+			f.Connect(head, flyt.DefaultAction, self)
+		} else {
+			f = flyt.NewFlow(self)
+		}
+		if err := f.Run(context.Background(), flyt.NewSharedStore()); err != nil {
+			add("flow-failed:wire-successor-while-running", "flow failed: %v", err)
+			return
+		}
+		if hit != 1 {
+			add("connection-not-followed:wired-while-running:"+cs.Shape, "a %s step without any outgoing connection connected its successor on the default action from inside its own %s callback and reported %q: the successor ran %d times, want once — when the action is routed the connection is there", cs.Shape, cs.Build, cs.Post, hit)
 		}
 		return
 	case "exec-fails-with-odd-error":
@@ -623,6 +694,18 @@ func runC18(c *Cfg) {
 							continue
 						}
 						cases = append(cases, &ActCase{Family: "grid-post-failing-with-a-harmless-looking-error", Kind: "post-fails-with-odd-error", Post: post, Routed: routed, N: n, C: n, FailAt: -1, Shape: sh, Build: ek})
+					}
+				}
+			}
+			if post == "" || post == "default" {
+				for _, sh := range []string{"struct", "func", "batch"} {
+					for _, ph := range []string{"prep", "exec", "post"} {
+						for n := 1; n <= 3; n += 2 {
+							if sh != "batch" && n > 1 {
+								continue
+							}
+							cases = append(cases, &ActCase{Family: "grid-successor-wired-while-the-step-runs", Kind: "wire-successor-while-running", Post: post, Routed: routed, N: n, C: n - 1, FailAt: -1, Shape: sh, Build: ph})
+						}
 					}
 				}
 			}
